@@ -20,6 +20,8 @@ manifest = {
         {"name": "hypothesis", "path": "/verif/vlib/harness.py",
          "serves_properties": [c["id"] for c in CHECKS],
          "kind_free_text": "Hypothesis 6.168 @given + RuleBasedStateMachine, seeded from VERIF_SEED, sharded over processes; explicit reference-model / round-trip / metamorphic oracles; shrunk failures saved as JSON replays"},
+        {"name": "atheris", "path": "/verif/vlib/fuzz_driver.py", "serves_properties": ["C02", "C15"],
+         "kind_free_text": "Atheris 3.1 / libFuzzer (installed offline into /verif/.deps by setup_cmd), thorough tier only: structured targets drive the Hypothesis strategies through fuzz_one_input, raw targets mutate document bytes over a small alphabet against an independent reference reader; violations are collected (smallest case per signature) and written as the same JSON replays; engine timeouts / crashes are replayed by the parent under the watchdog"},
     ],
     "checks": [],
     "notes": "One CLI (check.py) for all properties. VERIF_REPO / VERIF_OUT redirect the tree under test and the output directory (used for mutant runs). KNOWN_FINDINGS.txt lists fixed and open findings.",
@@ -38,6 +40,9 @@ for c in CHECKS:
         "technique": c["technique"],
     })
 json.dump(manifest, open(os.path.join(HERE, "MANIFEST.json"), "w"), indent=1)
-import jsonschema  # noqa
-jsonschema.validate(manifest, json.load(open("/root/.vp/MANIFEST.schema.json")))
+try:
+    import jsonschema  # noqa
+    jsonschema.validate(manifest, json.load(open("/root/.vp/MANIFEST.schema.json")))
+except ImportError:
+    print("(jsonschema not importable here: validate with python3-vt)")
 print("MANIFEST.json written:", len(manifest["checks"]), "checks,", len(NOT_APPLICABLE), "not applicable")
